@@ -14,6 +14,9 @@ import (
 // not recovered: the child process dies and the parent records the crash.
 func runDirect(c *Case, kind string) *Result {
 	r := &Result{End: "c", Retain: "ok", UserMap: "same"}
+	if kind == "close" {
+		return runClose(c)
+	}
 	switch kind {
 	case "params":
 		ps := wire.ParseParameters(string(c.In))
